@@ -476,7 +476,7 @@ def _run_symbolic(which, gens, r, k, rows_only=False):
     return R.reshape(R.shape[0], -1), SS.arr(rec['M'])
 
 
-def job_soundness(tier, rng, which, shape):
+def _job_soundness_impl(tier, rng, which, shape):
     t0 = time.time()
     if which == 'bipartite':
         dA, dB, N, r, k = shape; gshape = (N, dA, dB); sh = f'dimA={dA},dimB={dB},N={N},r={r},k={k}'
@@ -691,7 +691,7 @@ def _chart_run(cls, G, field, nb, symbolic):
     return rec, SS.arr(basis), SS.arr(comp), kind, log
 
 
-def job_charts(tier, rng, cls, m, n):
+def _job_charts_impl(tier, rng, cls, m, n):
     dt, field, kind_exp, amb, block = CHART[cls]
     sh = f'class={cls},m={m},n={n}'
     base = f'{PROP}.get_matrix_orthogonal_basis.chart'
@@ -828,7 +828,7 @@ def job_charts(tier, rng, cls, m, n):
 import numqi.matrix_space._numerical_range as NR
 
 
-def job_detector(tier, rng, dimA, dimB):
+def _job_detector_impl(tier, rng, dimA, dimB):
     sh = f'dimA={dimA},dimB={dimB}'
     base = f'{PROP}.detect_real_matrix_subspace_rank_one.soundness_lemma'
     funcs = ['numqi.matrix_space._numerical_range:detect_real_matrix_subspace_rank_one', 'numqi.matrix_space._numerical_range:get_real_bipartite_numerical_range']
@@ -943,7 +943,7 @@ def job_detector(tier, rng, dimA, dimB):
 # get_matrix_numerical_range: for each sampling angle t the matrix handed to the Hermitian eigen-routine is H_t = (e^{it} A + e^{-it} A^dagger)/2, the LARGEST eigenpair is requested
 # (last column of eigh / which='LA' of eigsh) and the returned point is v^dagger A v for the vector v the routine hands back; and Re(e^{it} v^dagger A v) == v^dagger H_t v for EVERY v,
 # so with v the top unit eigenvector the point attains the support function lambda_max(H_t) in direction t. Eigen-routines are recorders (assumed contract: top unit eigenvector).
-def job_numrange_lemma(tier, rng, N):
+def _job_numrange_lemma_impl(tier, rng, N):
     sh = f'N={N}'
     base = f'{PROP}.get_matrix_numerical_range.support_lemma'
     funcs = ['numqi.matrix_space._numerical_range:get_matrix_numerical_range']
@@ -1062,6 +1062,44 @@ SOUND_BI = dict(quick=[(2, 2, 1, 1, 3), (2, 2, 2, 1, 1), (2, 2, 2, 1, 2), (2, 2,
                 thorough=[(2, 2, 1, 1, 3), (2, 2, 2, 1, 1), (2, 2, 2, 1, 2), (2, 2, 2, 1, 3), (2, 3, 3, 1, 1), (2, 2, 3, 1, 2), (3, 3, 2, 2, 1), (3, 3, 3, 2, 1), (3, 3, 2, 1, 2), (3, 3, 2, 2, 2), (2, 3, 2, 1, 3), (3, 4, 2, 2, 1), (4, 4, 2, 3, 1)])
 SOUND_TRI = dict(quick=[(2, 2, 2, 1, 2), (2, 2, 2, 2, 1), (2, 2, 2, 2, 2), (2, 2, 3, 2, 1)], thorough=[(2, 2, 2, 1, 2), (2, 2, 2, 2, 1), (2, 2, 2, 2, 2), (2, 2, 3, 2, 1), (2, 2, 2, 3, 1), (2, 2, 2, 2, 3), (2, 3, 3, 2, 1)])
 SHAPES = dict(quick=dict(bipartite=SOUND_BI['quick'], tripartite=SOUND_TRI['quick']), thorough=dict(bipartite=SOUND_BI['thorough'], tripartite=SOUND_TRI['thorough']))
+
+
+# ---- 'how' clauses and the end-to-end run. The lemmas above speak about the internal organisation (what is handed to LU / eigh / the minimiser, how rows are indexed). When one of them
+# fails, the bounded end-to-end job of the same function (planted instances, generator classes, ... - no stubs, independent oracle) is run: if it passes the code is merely organised
+# differently -> undecided (+engine_suspect); if it fails too, its witness is the replayed violation.
+def _how_filter(out, tier, rng, sem_job):
+    bad = [o for o in out if o.get('verdict') == 'refuted' and o.get('tier') == 'P']
+    if not bad:
+        return out
+    sem = sem_job('quick', np.random.default_rng(int(rng.integers(0, 2 ** 31))))
+    failed = [o for o in sem if o.get('verdict') == 'refuted']
+    if failed:
+        for o in bad:
+            if not o.get('witness'):
+                o['witness'] = failed[0].get('witness'); o['native'] = dict(confirmed=True, info='end-to-end bounded run of the same function fails: ' + failed[0]['id'])
+        return out
+    for o in bad:
+        o['verdict'] = 'undecided'; o['engine_suspect'] = True
+        o['detail'] = ('lemma about the internal organisation fails, but the end-to-end bounded run of the same function (' + ', '.join(x['id'] for x in sem if x.get('tier') == 'B')[:200] +
+                       ') passes: the code is organised differently from what the lemma is phrased for. ' + str(o.get('detail') or o.get('verifier_output') or ''))[:900]
+        o.pop('witness', None)
+    return out
+
+
+def job_soundness(tier, rng, which, shape):
+    return _how_filter(_job_soundness_impl(tier, rng, which, shape), tier, rng, job_hierarchy if which == 'bipartite' else job_tripartite)
+
+
+def job_charts(tier, rng, cls, m, n):
+    return _how_filter(_job_charts_impl(tier, rng, cls, m, n), tier, rng, job_basis)
+
+
+def job_detector(tier, rng, dimA, dimB):
+    return _how_filter(_job_detector_impl(tier, rng, dimA, dimB), tier, rng, job_rank_one_detector)
+
+
+def job_numrange_lemma(tier, rng, N):
+    return _how_filter(_job_numrange_lemma_impl(tier, rng, N), tier, rng, job_numerical_range)
 
 
 def jobs(tier):
